@@ -45,9 +45,15 @@ structure Resource where
 
 abbrev Table := List Resource
 
-def str (s : String) : Bytes := s.toUTF8.toList
-
-def wkPath : Bytes := str ".well-known/core"
+/-- `.well-known/core` -/
+def wkPath : Bytes := [0x2E, 0x77, 0x65, 0x6C, 0x6C, 0x2D, 0x6B, 0x6E, 0x6F, 0x77, 0x6E, 0x2F, 0x63, 0x6F, 0x72, 0x65]
+/-- `;obs`, `;osc`, `href`, `rt`, `if`, `rel` (spelled as bytes so that the kernel can compute with them) -/
+def sObs : Bytes := [0x3B, 0x6F, 0x62, 0x73]
+def sOsc : Bytes := [0x3B, 0x6F, 0x73, 0x63]
+def sHref : Bytes := [0x68, 0x72, 0x65, 0x66]
+def sRt : Bytes := [0x72, 0x74]
+def sIf : Bytes := [0x69, 0x66]
+def sRel : Bytes := [0x72, 0x65, 0x6C]
 
 /-! ### the table: what "currently registered" means -/
 
@@ -64,7 +70,7 @@ def attrBytes (a : Attr) : Bytes :=
 /-- `</path>;name=value;name…[;obs][;osc]` -/
 def link (r : Resource) : Bytes :=
   [0x3C, 0x2F] ++ r.path ++ [0x3E] ++ (r.attrs.map attrBytes).flatten ++
-    (if r.observable then str ";obs" else []) ++ (if r.oscoreOnly then str ";osc" else [])
+    (if r.observable then sObs else []) ++ (if r.oscoreOnly then sOsc else [])
 
 /-- links separated by `,` -/
 def joinComma : List Bytes → Bytes
@@ -94,16 +100,14 @@ def matchSpec (isPrefix tokenwise : Bool) (pat v : Bytes) : Bool :=
 def unquote (v : Bytes) : Bytes :=
   if 2 ≤ v.length ∧ v.head? = some 0x22 ∧ v.getLast? = some 0x22 then v.tail.dropLast else v
 
-def isListAttr (name : Bytes) : Bool := name == str "rt" || name == str "if" || name == str "rel"
+def isListAttr (name : Bytes) : Bool := name == sRt || name == sIf || name == sRel
 
 /-- the search token: a final `*` asks for prefix matching -/
 def starSplit (tok : Bytes) : Bool × Bytes :=
   if tok.getLast? = some 0x2A then (true, tok.dropLast) else (false, tok)
 
 def stripSlash (tok : Bytes) : Bytes :=
-  match tok with
-  | 0x2F :: r => r
-  | _ => tok
+  if tok.head? = some 0x2F then tok.tail else tok
 
 /-- D20.6 -/
 def findAttr (name : Bytes) : List Attr → Option Attr
@@ -117,7 +121,7 @@ def selects (q : Bytes) (r : Resource) : Bool :=
   else if name.length = q.length then false          -- D20.2: no `=`
   else
     let tok := q.drop (name.length + 1)
-    if name == str "href" then
+    if name == sHref then
       let (pfx, pat) := starSplit (stripSlash tok)   -- D20.3
       matchSpec pfx false pat r.path
     else
